@@ -209,6 +209,14 @@ def run(prog, rep):
                     rep.violation('R1', loc(mod, fn), fq, 'non-locking helper changes lock depth',
                                   f'{name} is a non-locking helper but acquires/releases the lock')
 
+            # locals that name a stored graph object (bound from self.graphs[...] / self.graphs): working on them is working on
+            # the structure itself
+            galias = set()
+            for a_ in walk_no_nested(fn):
+                if isinstance(a_, ast.Assign) and len(a_.targets) == 1 and isinstance(a_.targets[0], ast.Name):
+                    v_ = a_.value
+                    if (isinstance(v_, ast.Subscript) and ast.unparse(v_.value) == 'self.graphs') or ast.unparse(v_) == 'self.graphs':
+                        galias.add(a_.targets[0].id)
             # R2 / R3 : per statement node, look at accesses with the entry depth set
             for node in cfg.nodes:
                 if node.ast is None or node.kind in ('join', 'handler', 'entry', 'exit', 'raise_exit'):
@@ -259,6 +267,13 @@ def run(prog, rep):
                                 acc = 'self.graphs passed to a call'
                             elif isinstance(par, ast.Compare):
                                 acc = 'membership test on self.graphs'
+                    if acc is None and isinstance(sub, ast.Call) and isinstance(sub.func, ast.Attribute) and isinstance(sub.func.value, ast.Name) and \
+                            sub.func.value.id in galias:
+                        # a method applied to a local that names a stored graph (copy, clear, add_*, nodes ...): reads or changes the structure
+                        acc = f'<stored graph {sub.func.value.id}>.{sub.func.attr}()'
+                    if acc is None and isinstance(sub, ast.Attribute) and isinstance(sub.value, ast.Name) and sub.value.id in galias and \
+                            sub.attr in ('nodes', 'edges', 'adj') and not isinstance(getattr(sub, '_parent', None), ast.Call):
+                        acc = f'<stored graph {sub.value.id}>.{sub.attr}'
                     if acc:
                         rep.instance('R3', f'{fq}: {acc} in {norm(enclosing(node))}', detail={'depths': sorted(depths)})
                         if not held:
@@ -357,6 +372,9 @@ def thorough(prog, rep):
 NX = 'fim/graph/networkx_property_graph.py'
 DJ = 'fim/graph/networkx_property_graph_disjoint.py'
 MUTANTS = [
+    {'name': 'disjoint-extract-copies-after-release', 'file': DJ, 'rule': 'R3',
+     'find': "                return self.graphs[graph_id].copy()\n            finally:\n                self.lock.release()\n",
+     'replace': "                graph = self.graphs[graph_id]\n            finally:\n                self.lock.release()\n            return graph.copy()\n"},
     {'name': 'shared-del_graph-finally-removed', 'file': NX, 'rule': 'R1',
      'find': '            try:\n                self.__del_graph_nl(graph_id)\n            finally:\n                self.lock.release()\n',
      'replace': '            self.__del_graph_nl(graph_id)\n            self.lock.release()\n'},
